@@ -20,6 +20,12 @@ def cases(tier, seed):
     # analyse -> edit the same model object in place -> analyse again with the same operation object
     for m in sp.structures_upto(4 if tier == 'quick' else 5):
         yield ('SE', m)
+    # an execution that raises half-way on an ill-formed variant, then the well-formed model (same
+    # operation object, then a fresh one); and what the caller does with a returned result
+    for m in list(sp.structures_upto(4 if tier == 'quick' else 5))[1:]:
+        yield ('SF', m)
+    for m in sp.structures_upto(4 if tier == 'quick' else 5):
+        yield ('SO', m)
     from . import families
     for m in families.models():
         yield ('S', m)
@@ -73,7 +79,7 @@ reduce = cm.reduce_model_case
 
 
 def nontrivial(case):
-    return case[0] in ('B', 'DC') or cm.has_group_or_ctc(case[1])
+    return case[0] in ('B', 'DC', 'SF', 'SO') or cm.has_group_or_ctc(case[1])
 
 
 def reduce(case):  # noqa: F811
@@ -112,3 +118,77 @@ def edit_history(model, op_class, oracle):
         if out:
             return out
     return []
+
+
+def failure_history(model, op_class, oracle):
+    from .. import build as bd
+    from ..engine import Fail
+    for path, _f in list(sh._paths(model[0]))[1:]:
+        for marker in ('__ALIEN_STR__', '__ALIEN_NONE__'):
+            bad = (sh._replace_feature(model[0], list(path), lambda g, marker=marker: (marker, (), g[2], g[3], g[4], g[5])), model[1])
+            op = op_class()
+            raised = False
+            try:
+                op.execute(bd.build(bad))
+            except Exception:  # noqa: BLE001
+                raised = True
+            fm, fails = cm.built(model)
+            if fails:
+                return fails
+            for who, obj in (('same-object', op), ('fresh-object', op_class())):
+                try:
+                    res = obj.execute(fm).get_result()
+                except Exception as exc:  # noqa: BLE001
+                    return [Fail('after-failed-execution:%s:raises:%s' % (who, type(exc).__name__), {'first': '%s at %s' % (marker, list(path)), 'msg': str(exc)[:200]})]
+                out = oracle(res, model)
+                for f in out:
+                    f.clause = 'after-failed-execution:%s:%s' % (who, f.clause)
+                    f.detail = {'first': '%s at %s' % (marker, list(path)), 'first raised': raised, 'info': f.detail}
+                if out:
+                    return out
+    return []
+
+
+def result_ownership(model, op_class, oracle):
+    """Results handed out earlier are not changed by later executions, and emptying a returned
+    container does not reach later executions (same object, fresh object, same model object)."""
+    from .. import build as bd
+    from ..engine import Fail
+    import copy
+    fm, fails = cm.built(model)
+    if fails:
+        return fails
+    op = op_class()
+    try:
+        first = op.execute(fm).get_result()
+        snap = _plain_result(first)
+        other = sh.M(sh.F('Zq', [sh.R(1, 1, [sh.F('Yq')]), sh.R(0, 1, [sh.F('Xq')])]))
+        op.execute(bd.build(other)).get_result()
+        op_class().execute(bd.build(other)).get_result()
+        if _plain_result(first) != snap:
+            return [Fail('earlier-result-changed-by-later-execution', {'was': repr(snap)[:200], 'now': repr(_plain_result(first))[:200]})]
+        if isinstance(first, (list, set, dict)):
+            keep = copy.copy(first)
+            for x in (first if isinstance(first, list) else ()):
+                if isinstance(x, (set, list)):
+                    x.clear()
+            first.clear()
+            for who, obj in (('same-object', op), ('fresh-object', op_class())):
+                res = obj.execute(fm).get_result()
+                out = oracle(res, model)
+                for f in out:
+                    f.clause = 'after-the-caller-emptied-a-result:%s:%s' % (who, f.clause)
+                if out:
+                    return out
+            del keep
+    except Exception as exc:  # noqa: BLE001
+        return [Fail('result-ownership:raises:%s' % type(exc).__name__, str(exc)[:200])]
+    return []
+
+
+def _plain_result(res):
+    if isinstance(res, list):
+        return tuple(_plain_result(x) for x in res)
+    if isinstance(res, (set, frozenset)):
+        return tuple(sorted(_plain_result(x) for x in res))
+    return getattr(res, 'name', res)
